@@ -171,6 +171,26 @@ func runGlobalState(p *Prog, r *Report) {
 											fresh = true
 										}
 									}
+									// a local of the (non-pointer) struct type itself: a private copy,
+									// whatever it was copied from (ctx := d.ctx; ctx.F = …), as long as
+									// the written field is the copy's own (x.X is that local, not a
+									// pointer reached through it) and its address is not taken
+									if id, isId := ast.Unparen(x.X).(*ast.Ident); isId && ast.Unparen(l) == ast.Expr(x) && info.ObjectOf(id) == bo && !fn.isParam(bo) && v.Parent() != fn.Pkg.Types.Scope() {
+										if _, isPtr := v.Type().Underlying().(*types.Pointer); !isPtr {
+											addr := false
+											for _, a := range rootFunc(fn).Assignments(bo) {
+												if _, isAddr := a.(*ast.UnaryExpr); isAddr {
+													addr = true
+												}
+											}
+											if fn.Lit != nil && (v.Pos() < fn.Lit.Pos() || v.Pos() > fn.Lit.End()) {
+												addr = true // captured
+											}
+											if !addr {
+												fresh = true
+											}
+										}
+									}
 								}
 								writers++
 								name := nt.Obj().Name() + "." + x.Sel.Name
